@@ -65,6 +65,8 @@ pub fn st() -> &'static mut Sched {
 }
 
 pub const ALL_KINDS: u16 = 0x0fff;
+/// preemption-point kind of `alloc::allocate` / `alloc::deallocate` (continues rt::K_* and K_PAYLOAD)
+pub const K_ALLOC: u8 = 13;
 /// site windows (DESIGN.md 4.1): a partition of all preemption sites by the kind of the shim
 /// operation they precede
 pub const WIN_LOADS: u16 = 1 << 0;
@@ -249,7 +251,10 @@ macro_rules! sched_hooks {
                 true
             }
             pub fn alloc_event(is_alloc: bool, addr: usize, bytes: usize) {
-                $crate::allocs::event(is_alloc, addr, bytes)
+                $crate::allocs::event(is_alloc, addr, bytes);
+                // an allocation / deallocation of the queue is a preemption point of kind 13
+                // (only harnesses whose `kinds` mask contains it inject there)
+                $crate::sched::point_impl::<$sc>($crate::sched::K_ALLOC, addr)
             }
             #[cfg(not(kani))]
             pub fn install() {
